@@ -24,6 +24,92 @@ def has(og, pat):
     return any(glob_match(pat, o) or (pat[-1] != '*' and glob_match(pat + '.*', o)) for o in og)
 
 
+def _const_str(body, op, depth=0):
+    """The text of a string literal operand (directly, or through a local that is only ever assigned that one literal)."""
+    if op[0] == 'const':
+        if op[2] == '&str' and len(op[1]) >= 2 and op[1][0] == '"' and op[1][-1] == '"':
+            return op[1][1:-1]
+        return None
+    if op[0] in ('copy', 'move') and not op[1][1] and depth < 4:
+        defs = []
+        for b in body.blocks:
+            for (_, pl, rv) in b.stmts:
+                if pl[0] == op[1][0] and not pl[1]:
+                    defs.append(rv)
+            t = b.term
+            if t[0] == 'call' and t[1].dest[0] == op[1][0]:
+                return None
+        if len(defs) == 1 and defs[0][0] == 'use':
+            return _const_str(body, defs[0][1], depth + 1)
+    return None
+
+
+def _text_table(ctx, f, key_ty, seen):
+    """The texts a key-to-text function can produce, as (text, number of placeholders): the placeholder-free format strings in its
+    span, the constant strings it writes (write_str / pad) or returns, and - when the written text comes out of another function of
+    this crate applied to the key (`f.write_str(self.as_str())`) - that function's table.  (None, 1) stands for a text that is not a
+    literal."""
+    raw = getattr(f, '_orig', f)
+    if raw.name in seen:
+        return []
+    seen.add(raw.name)
+    texts = []
+    for st in raw.unit.fmt:
+        if st['file'] == raw.file and raw.l0 <= st['line'] <= raw.l1:
+            texts.append((''.join(pc[1] for pc in st['pieces'] if pc[0]), sum(1 for pc in st['pieces'] if not pc[0])))
+
+    def helper_tables(g, op):
+        out, found = [], False
+        for o in sorted(fn_origins(g, op, True)):
+            if not o.startswith('call:'):
+                continue
+            for h in ctx.ws.by_name.get(o[5:], []):
+                hr = getattr(h, '_orig', h)
+                if hr.unit is raw.unit and hr.body is not None and hr.argc == 1 and key_ty.split('::')[-1] in (hr.body.lty(1) or ''):
+                    found = True
+                    out += _text_table(ctx, hr, key_ty, seen)
+        return out if found else None
+    for g in raw.family():
+        gb = g.body
+        for c in gb.calls():
+            if any(n.endswith(('Formatter::write_str', 'Formatter::pad')) for n in c.names()) and len(c.args) > 1:
+                v = _const_str(gb, c.args[1])
+                if v is not None:
+                    texts.append((v, 0))
+                    continue
+                sub = helper_tables(g, c.args[1])
+                texts += sub if sub is not None else [(None, 1)]
+    if 'str' in (raw.ret or ''):
+        rb = raw.body
+        carriers = rb.ret_carriers()
+        for b in rb.blocks:
+            if b.cleanup:
+                continue
+            for (_, pl, rv) in b.stmts:
+                if pl[0] in carriers and not pl[1] and rv[0] == 'use':
+                    if rv[1][0] in ('copy', 'move') and not rv[1][1][1] and rv[1][1][0] in carriers:
+                        continue
+                    v = _const_str(rb, rv[1])
+                    texts.append((v, 0) if v is not None else (None, 1))
+            t = b.term
+            if t[0] == 'call' and t[1].dest[0] in carriers and not t[1].dest[1]:
+                sub = helper_tables(raw, ('copy', (t[1].dest[0], [])))
+                texts += sub if sub is not None else [(None, 1)]
+    return texts
+
+
+def _key_text_fns(ctx, g, og, key_ty):
+    """Same-crate one-parameter functions over the part key among the origins of a fed value."""
+    out = []
+    for o in sorted(og):
+        if o.startswith('call:'):
+            for h in ctx.ws.by_name.get(o[5:], []):
+                hr = getattr(h, '_orig', h)
+                if hr.body is not None and hr.argc == 1 and key_ty.split('::')[-1] in (hr.body.lty(1) or '') and 'str' in (hr.ret or '').lower():
+                    out.append(hr)
+    return out
+
+
 def run(ctx):
     R = ctx.report
     R.clause('a', 'every field that verification consumes is under the certificate hash')
@@ -54,6 +140,7 @@ def run(ctx):
         from engine import loop_body_entry
         ok_k = ok_v = False
         in_loop = []
+        key_text_fns = []   # functions of the key other than Display whose text is fed (`key.as_str().as_bytes()`)
         SRC = ['pty:ProtocolMessage.message_parts', 'pty:BTreeMap', 'lty:ProtocolMessage.message_parts']
         for g in pm.family():
             gb = g.body
@@ -62,8 +149,12 @@ def run(ctx):
                     continue
                 og = fn_origins(g, c.args[1], True)
                 src = any(has(og, x) for x in SRC)
+                kfs = _key_text_fns(ctx, g, og, E + 'protocol_message::ProtocolMessagePartKey')
                 if src and has(og, 'call:*ToString*::to_string'):
                     ok_k = True
+                elif src and kfs:
+                    ok_k = True
+                    key_text_fns.extend(kfs)
                 elif src:
                     ok_v = True
                 if g is not pm or loop_body_entry(gb, c.bb) is not None:
@@ -82,24 +173,21 @@ def run(ctx):
     # same value under either key gave one digest and match_message accepted one for the other)
     PMK = E + 'protocol_message::ProtocolMessagePartKey'
     dk = ctx.try_fn('b', '<' + PMK + ' as std::fmt::Display>::fmt')
-    if dk is not None:
+    extra = []
+    if pm is not None:
+        for h in key_text_fns:
+            if h.name not in [x.name for x in extra]:
+                extra.append(h)
+    for dk in ([dk] if dk is not None else []) + extra:
         try:
             nvar = len(ctx.ws.adt(PMK)['variants'])
         except Exception as e:  # noqa
             nvar = None
             R.missing('b', e)
-        texts = []
-        raw = getattr(dk, '_orig', dk)
-        for st in raw.unit.fmt:
-            if st['file'] == raw.file and raw.l0 <= st['line'] <= raw.l1:
-                texts.append((''.join(pc[1] for pc in st['pieces'] if pc[0]), sum(1 for pc in st['pieces'] if not pc[0])))
-        for g in dk.family():
-            for c in g.body.calls():
-                if any(n.endswith(('Formatter::write_str', 'Formatter::pad')) for n in c.names()) and len(c.args) > 1:
-                    v = g.body.const_of(c.args[1])
-                    if isinstance(v, str):
-                        texts.append((v, 0))
+        texts = _text_table(ctx, dk, PMK, set())
         inst = 'Display for ProtocolMessagePartKey (the text fed to the digest) writes a distinct literal for every key'
+        if dk in extra:
+            inst = '%s (the text of the key fed to the digest) gives a distinct literal for every key' % fn_short(dk.name)
         lits = [t for t, nph in texts if nph == 0]
         dup = sorted({t for t in lits if lits.count(t) > 1})
         if nvar is not None:
@@ -108,8 +196,8 @@ def run(ctx):
             elif dup:
                 R.violation('b', 'R12', inst, 'part_key:display-injective', 'the literal(s) %s are written for more than one key: the digest no longer tells those keys apart' % dup, dk.loc())
             else:
-                R.missing('b', 'Display for ProtocolMessagePartKey is not a table of %d literals (%d literal sites, %d templated): injectivity not decided' % (
-                    nvar, len(lits), len(texts) - len(lits)))
+                R.missing('b', '%s is not a table of %d literals (%d literal sites, %d templated): injectivity not decided' % (
+                    fn_short(dk.name), nvar, len(lits), len(texts) - len(lits)))
 
     # (c)
     ctx.field_cover('c', E + 'signed_entity_type::SignedEntityType', E + 'signed_entity_type::SignedEntityType::feed_hash', consumers=DIGEST)
